@@ -12,7 +12,10 @@ use std::sync::{Arc, RwLock};
 
 use self::prioritize_chess_moves::sort_chess_moves;
 
-type SearchNode = (u64, i16, i16); // position_hash, alpha, beta
+// position_hash, remaining depth, maximizing player, alpha, beta
+// (the hash does not encode the side to move, and a score is only valid for
+// the remaining depth it was computed with)
+type SearchNode = (u64, u8, bool, i16, i16);
 type SearchResult = i16; // best_score
 
 mod prioritize_chess_moves;
@@ -175,7 +178,13 @@ fn alpha_beta_minimax(
     beta: i16,
     maximizing_player: bool,
 ) -> Result<i16, SearchError> {
-    let search_node = (board.current_position_hash(), alpha, beta);
+    let search_node = (
+        board.current_position_hash(),
+        depth,
+        maximizing_player,
+        alpha,
+        beta,
+    );
     #[cfg(chess_verif)]
     let verif_window = (alpha, beta);
     #[cfg(chess_verif)]
